@@ -282,10 +282,16 @@ OwnVeto(o, s) ==
         \/ o.hlog[i].h = <<"self", s>>
         \/ (HKind(o.hlog[i]) = "ss" /\ o.hlog[i].h[3] = s)
 
-ForeignVeto(o) ==
+(* a veto that is NOT an Auto state's own: an exit / AnyEnter handler, or a      *)
+(* handler of a non-Auto state of the target.  Such a veto cancels the whole   *)
+(* auto transition and is not judged (permissive reading).  The handlers of    *)
+(* an Auto state that is ALREADY ACTIVE (self, state-state into it) are that   *)
+(* state's own: rejecting it must not cancel the called ones either            *)
+(* (transition.go: `t.IsAuto() && t.cacheSchema[state].Auto` at all 3 sites).  *)
+ForeignVeto(sch, o) ==
   \E i \in 1..Len(o.hlog) :
      /\ <<o.hlog[i].b, o.hlog[i].h>> \in o.vetoed
-     /\ ~\E s \in SSet(o.mut.called) :
+     /\ ~\E s \in {n \in DOMAIN sch : sch[n].auto} :
            \/ o.hlog[i].h = <<"enter", s>>
            \/ o.hlog[i].h = <<"self", s>>
            \/ (HKind(o.hlog[i]) = "ss" /\ o.hlog[i].h[3] = s)
@@ -294,7 +300,7 @@ ForeignVeto(o) ==
 (* the resolution of the whole called list (o.target0) or the resolution of   *)
 (* the surviving called states drops it.                                      *)
 C07_JudgedIndividually(fx, sch, topo, hs, o) ==
-  (o.kind = "tx" /\ o.mut.auto /\ ~ForeignVeto(o)) =>
+  (o.kind = "tx" /\ o.mut.auto /\ ~ForeignVeto(sch, o)) =>
     LET surv == SelectSeq(o.mut.called, LAMBDA s : SHas(o.target0, s) /\ ~OwnVeto(o, s))
         want == TargetStates(fx, sch, topo, surv \o o.before, o.before,
                              FALSE, o.mut.called)
